@@ -109,7 +109,7 @@ def _run_main(ctx):
         got = [(x.cond_strs(), x.value_str()) for x in rows2]
         want2 = [(['frame ~ amq_protocol::frame::AMQPFrame::Method(_, _)', '(expected_id == frame.Method.0)'], 'serialize::TryFromAmqpClass::try_from(frame.Method.1)'),
                  (['frame ~ amq_protocol::frame::AMQPFrame::Method(_, _)', '!(expected_id == frame.Method.0)'], FU), (['frame ~ not amq_protocol::frame::AMQPFrame::Method(_, _)'], FU)]
-        r.eq('TryFromAmqpFrame', got, want2, ctx.site('<T as serialize::TryFromAmqpFrame>::try_from'), why='method frames on another channel and non-method frames are out of order')
+        r.eq('TryFromAmqpFrame', sorted(got), sorted(want2), ctx.site('<T as serialize::TryFromAmqpFrame>::try_from'), why='method frames on another channel and non-method frames are out of order')
         for ty in ('Start', 'Secure', 'Tune', 'OpenOk', 'Close'):
             fnp = '<%s%s as serialize::TryFromAmqpClass>::try_from' % (CONN, ty)
             rows3 = P.table(ctx, fnp, ['class'])
